@@ -20,6 +20,7 @@ import (
 	metav1 "k8s.io/apimachinery/pkg/apis/meta/v1"
 	"k8s.io/apimachinery/pkg/apis/meta/v1/unstructured"
 	"k8s.io/apimachinery/pkg/runtime"
+	"k8s.io/apimachinery/pkg/runtime/schema"
 	"k8s.io/apimachinery/pkg/types"
 	"k8s.io/utils/ptr"
 	"sigs.k8s.io/controller-runtime/pkg/client"
@@ -31,6 +32,7 @@ import (
 	"github.com/crossplane/crossplane-runtime/pkg/feature"
 	"github.com/crossplane/crossplane-runtime/pkg/logging"
 	"github.com/crossplane/crossplane-runtime/pkg/resource"
+	ucomposite "github.com/crossplane/crossplane-runtime/pkg/resource/unstructured/composite"
 	"github.com/crossplane/crossplane-runtime/pkg/resource/unstructured/reference"
 
 	fnv1 "github.com/crossplane/crossplane/apis/apiextensions/fn/proto/v1"
@@ -72,9 +74,13 @@ const (
 	// serves the version from before the adoption (sites with stale == true).
 	preStaleOwned
 	preStaleUncontrolled
+	// The target is controlled by a foreign UID and the controller's cache has
+	// not seen it at all: cached reads answer 404, the uncached fallback
+	// finds it.
+	preForeignCacheMiss
 )
 
-var preNames = []string{"absent", "uncontrolled", "owned", "foreign", "foreign-behind-stale-cache(owned)", "foreign-behind-stale-cache(uncontrolled)"}
+var preNames = []string{"absent", "uncontrolled", "owned", "foreign", "foreign-behind-stale-cache(owned)", "foreign-behind-stale-cache(uncontrolled)", "foreign-missing-from-cache"}
 
 // staleClient is a controller's cached client whose informer has not yet
 // seen the last write of one object: Gets of that object return the version
@@ -188,6 +194,13 @@ func composedObj(gvkName, name, resName string) *unstructured.Unstructured {
 	u.SetName(name)
 	u.SetAnnotations(map[string]string{"crossplane.io/composition-resource-name": resName})
 	_ = unstructured.SetNestedField(u.Object, "theirs", "spec", "data")
+	// A stored object always has managed fields; this one was written with
+	// plain updates (as by a P&T XR or kubectl), not by server-side apply.
+	now := metav1.Now()
+	u.SetManagedFields([]metav1.ManagedFieldsEntry{{
+		Manager: "crossplane", Operation: metav1.ManagedFieldsOperationUpdate, APIVersion: gvk.GroupVersion().String(), Time: &now,
+		FieldsType: "FieldsV1", FieldsV1: &metav1.FieldsV1{Raw: []byte(`{"f:metadata":{"f:annotations":{"f:crossplane.io/composition-resource-name":{}}},"f:spec":{"f:data":{}}}`)},
+	}})
 	return u
 }
 
@@ -212,6 +225,8 @@ func xrSite(name string, pipeline bool, mode string) site {
 			basePre = preOwned
 		case preStaleUncontrolled:
 			basePre = preUncontrolled
+		case preForeignCacheMiss:
+			basePre = preForeign
 		}
 		exists := setPre(t, basePre, owner)
 		if exists {
@@ -245,7 +260,9 @@ func xrSite(name string, pipeline bool, mode string) site {
 		}
 		c := s.Client("xr")
 		var cached client.Client = c
-		if pre >= preStaleOwned {
+		if pre == preForeignCacheMiss {
+			cached = &xrh.MissingCache{Client: c, Kinds: map[string]bool{t.GetKind(): true}}
+		} else if pre >= preStaleOwned {
 			// Adopted by the foreign controller after the cache last saw it.
 			s.Mutate(simkube.KeyOf(t), func(u *unstructured.Unstructured) { u.SetOwnerReferences([]metav1.OwnerReference{foreign}) })
 			sc := &staleClient{Client: c, key: simkube.KeyOf(t)}
@@ -263,6 +280,56 @@ func xrSite(name string, pipeline bool, mode string) site {
 		unsynced := func() bool { return condFalse(s.Peek(xrh.XRKey("xr1")), "Synced") }
 		return simkube.KeyOf(t), round, unsynced
 	}}
+}
+
+// namesakeXRSite: the object carrying the name a desired resource asks for was
+// composed - through the real function composer, by server-side apply - by an
+// XR of the same kind and name in another API group. Only the API group tells
+// the two XRs (and their apply field managers) apart.
+func namesakeXRSite() site {
+	base := xrSite("function-composer/desired-name-collision-with-namesake-xr", true, "name-collision")
+	inner := base.build
+	base.stale = false
+	base.build = func(w *world, pre int) (simkube.ObjKey, func() []error, func() bool) {
+		if pre != preForeign {
+			return inner(w, pre)
+		}
+		s := w.s
+		xrd2 := xrh.XRD()
+		xrd2.SetName("xthings.other.example.org")
+		xrd2.SetUID("xrd2-uid")
+		xrd2.Spec.Group = "other.example.org"
+		xrd2.Spec.ClaimNames = nil
+		xrh.UseXRDSchemas(xrd2)
+		s.Seed(xrd2)
+		gvk2 := schema.GroupVersionKind{Group: "other.example.org", Version: "v1", Kind: xrh.XRGVK.Kind}
+		comp2 := xrh.PipelineComposition("comp2", "step")
+		comp2.Spec.CompositeTypeRef = v1.TypeReference{APIVersion: gvk2.GroupVersion().String(), Kind: gvk2.Kind}
+		xrh.SeedComposition(s, comp2)
+		xr2 := ucomposite.New(ucomposite.WithGroupVersionKind(gvk2))
+		xr2.SetName("xr1")
+		xr2.SetUID("xr2-uid")
+		xr2.SetCompositionReference(&corev1.ObjectReference{Name: "comp2"})
+		_ = unstructured.SetNestedField(xr2.Object, "theirs", "spec", "param")
+		s.Seed(xr2)
+		fn2 := func(_ context.Context, _ string, req *fnv1.RunFunctionRequest) (*fnv1.RunFunctionResponse, error) {
+			dr := xrh.DesiredResource("a", "theirs", true)
+			dr.Resource.Fields["metadata"] = structpb.NewStructValue(&structpb.Struct{Fields: map[string]*structpb.Value{"name": structpb.NewStringValue("taken")}})
+			return &fnv1.RunFunctionResponse{Desired: &fnv1.State{Resources: map[string]*fnv1.Resource{"a": dr}}, Context: req.GetContext()}, nil
+		}
+		rec2 := xrh.NewXRReconciler(xrd2, xrh.XROptions{Cached: s.Client("xr-other-group"), Runner: xrh.FunctionRunner(fn2)})
+		for i := 0; i < 3; i++ {
+			xrh.Reconcile(rec2, types.NamespacedName{Name: "xr1"})
+		}
+		tk := simkube.ObjKey{Group: xrh.ResA.Group, Kind: xrh.ResA.Kind, Name: "taken"}
+		if t := s.Peek(tk); t == nil || metav1.GetControllerOf(t) == nil || metav1.GetControllerOf(t).UID != "xr2-uid" {
+			panic(explore.HarnessError{Msg: "preparation: the namesake XR did not compose 'taken'"})
+		}
+		// Our XR (absent pre-state of the inner site: nothing else seeded).
+		_, round, unsynced := inner(w, preAbsent)
+		return tk, round, unsynced
+	}
+	return base
 }
 
 // ---- secrets --------------------------------------------------------------------
@@ -475,6 +542,7 @@ func sites() []site {
 		xrSite("function-composer/referenced-object", true, "ref"),
 		xrSite("function-composer/desired-name-collision", true, "name-collision"),
 		xrSite("function-composer/garbage-collection", true, "gc"),
+		namesakeXRSite(),
 		xrSite("pt-composer/referenced-object", false, "ref"),
 		xrSite("pt-composer/template-name-collision", false, "name-collision"),
 		xrSite("pt-composer/garbage-collection-of-removed-template", false, "gc"),
@@ -496,7 +564,7 @@ func sites() []site {
 func body(r *explore.Run, rep *report.R, st site) {
 	npre := 4
 	if st.stale {
-		npre = 6
+		npre = 7
 	}
 	pre := r.Free(npre, "pre-state")
 	rounds := 1 + r.Free(3, "rounds")
@@ -532,7 +600,7 @@ func body(r *explore.Run, rep *report.R, st site) {
 	}
 	var errs []string
 	requeued := false
-	stale := pre >= preStaleOwned
+	stale := pre == preStaleOwned || pre == preStaleUncontrolled
 	run := func(n int) {
 		for i := 0; i < n; i++ {
 			for _, e := range round() {
@@ -577,6 +645,8 @@ func body(r *explore.Run, rep *report.R, st site) {
 	switch {
 	case pre == preForeign:
 		check("", true)
+	case pre == preForeignCacheMiss:
+		check("/missing-from-cache", true)
 	case adopted:
 		// The write that was in flight when the object was adopted must not
 		// land; later rounds see the plain foreign placement.
@@ -633,7 +703,7 @@ func canonical(u *unstructured.Unstructured) string {
 func TestCheck(t *testing.T) {
 	rep := report.New("C02", "exploration")
 	rep.Meta(
-		"Table: 18 write sites (function composer: referenced object / desired-name collision / garbage collection; P&T composer: referenced object / name fixed by the template / removed template; XR connection secret; claim connection secret with both syncers; XRD->composite CRD and claim CRD; package->revision; active revision establishing an object; RBAC provider system and edit roles, binding; XRD roles) x target pre-state {absent, uncontrolled, controlled by the owner, controlled by a foreign UID (an unrelated object, or a namesake of the owner with another UID); for the composer sites also: adopted by a foreign UID while the controller's cache still serves the version it owned / that was uncontrolled} x 1..3 reconcile rounds, each run on the real reconciler over simkube. Foreign: target byte-identical, no effective non-dry-run write in the write log, conflict surfaced (returned error, warning event or unsynced condition). Absent / owned rows are controls showing the site does write. Non-trivial: every row (distinct by site, pre-state, rounds).",
+		"Table: 19 write sites (function composer: referenced object / desired-name collision / the same with the object composed by an XR of the same kind and name in another API group / garbage collection; P&T composer: referenced object / name fixed by the template / removed template; XR connection secret; claim connection secret with both syncers; XRD->composite CRD and claim CRD; package->revision; active revision establishing an object; RBAC provider system and edit roles, binding; XRD roles) x target pre-state {absent, uncontrolled, controlled by the owner, controlled by a foreign UID (an unrelated object, or a namesake of the owner with another UID); for the composer sites also: adopted by a foreign UID while the controller's cache still serves the version it owned / that was uncontrolled} x 1..3 reconcile rounds, each run on the real reconciler over simkube. Foreign: target byte-identical, no effective non-dry-run write in the write log, conflict surfaced (returned error, warning event or unsynced condition). Absent / owned rows are controls showing the site does write. Non-trivial: every row (distinct by site, pre-state, rounds).",
 		[]string{"simkube models the API server and enforces 'at most one controller reference' with the real ValidateOwnerReferences (the server-side-apply composer relies on that refusal)", "claim->XR binding (a claim reference, not a controller reference) is covered by C06; establishing into objects of other package revisions by C16"},
 		[]string{"simkube", "structured-merge-diff (real)"},
 	)
